@@ -167,6 +167,14 @@ def tag_regex_info(pf, loop, rule):
         if isinstance(st, ast.Assign) and isinstance(st.targets[0], ast.Tuple) and len(st.targets[0].elts) >= 2 and isinstance(st.value, ast.Call) and isinstance(st.value.func, ast.Attribute) and st.value.func.attr == "groups":
             key_var, val_var = norm(st.targets[0].elts[0]), norm(st.targets[0].elts[-1])
             info["groups_stmt"] = st
+            if len(st.targets[0].elts) == 3:
+                # name, type, value captured separately; the key is put together from the first two: key = "%s:%s:" % (name, type)
+                nm, ty = norm(st.targets[0].elts[0]), norm(st.targets[0].elts[1])
+                for st2 in walk_stmts(loop.body):
+                    if isinstance(st2, ast.Assign) and isinstance(st2.targets[0], ast.Name) and st2 is not st and isinstance(st2.value, ast.BinOp) and isinstance(st2.value.op, ast.Mod) and isinstance(st2.value.left, ast.Constant) and isinstance(st2.value.right, ast.Tuple) and [norm(e) for e in st2.value.right.elts] == [nm, ty]:
+                        key_var = norm(st2.targets[0])
+                        info["key_built"] = st2
+                        info["key_from_groups"] = (1, 2)
     if key_var is None:
         # findall idiom: pattern = re.findall(r"(KEY)...", k)[0] ; val = re.findall(r"...(VAL)", k)[0]
         for st in walk_stmts(loop.body):
@@ -208,6 +216,23 @@ def _lookup_module_const(f, name):
 
 def key_group_items(info):
     """regex items of the group that produces the stored key."""
+    if info.get("key_built") is not None and info.get("key_from_groups"):
+        # the key is a format over two capture groups: its language is the concatenation of theirs and the literal pieces
+        fmt = info["key_built"].value.left.value
+        pat = next((p for fn, p, c in info["patterns"] if p.count("(") >= 2), None)
+        if pat is None or fmt.count("%s") != 2 or "%" in fmt.replace("%s", ""):
+            return None
+        g = relang.groups(relang.flatten(relang.parse(pat)))
+        pieces = fmt.split("%s")
+        items = []
+        for i_, lit in enumerate(pieces):
+            items += [("char", {ord(ch)}) for ch in lit]
+            if i_ < 2:
+                gi = g.get(info["key_from_groups"][i_])
+                if gi is None:
+                    return None
+                items += list(gi)
+        return items
     if info.get("key_built") is not None:
         v = info["key_built"].value
         fmt = None
@@ -270,7 +295,20 @@ def r19_1_parser(ctx):
                         ctx.check(ok, "R19.1", pf.where(n), f"constant {k.value!r} compared with the stored tag key can be produced by the key capture group (otherwise the comparison is dead)", key_of(pf, f"key-const:{k.value}"), constant=k.value)
     ctx.require_count("R19.1", n_cmp, 2, pf.where(loop), "comparisons of the stored tag key with constants")
     # (b) decision table of is_primary
-    prim_false = [st for st in walk_stmts(loop.body) if isinstance(st, ast.Assign) and isinstance(st.value, ast.Constant) and st.value.value is False and isinstance(st.targets[0], ast.Name)]
+    # the flag handed to the record as is_primary: `flag` itself, or `not flag` when the parser tracks "secondary" instead
+    mark_val = False
+    flag_name = None
+    for r_ in walk_own(pf.node):
+        if isinstance(r_, ast.Return) and isinstance(r_.value, ast.Call):
+            ctor_ = ctx.repo.resolve_call(pf, r_.value)
+            if ctor_ is not None and ctor_.name == "__init__" and "is_primary" in ctor_.params:
+                ba_ = ctx.repo.bound_args(pf, r_.value) or {}
+                a_ = ba_.get("is_primary")
+                if isinstance(a_, ast.Name):
+                    flag_name = a_.id
+                elif isinstance(a_, ast.UnaryOp) and isinstance(a_.op, ast.Not) and isinstance(a_.operand, ast.Name):
+                    flag_name, mark_val = a_.operand.id, True
+    prim_false = [st for st in walk_stmts(loop.body) if isinstance(st, ast.Assign) and isinstance(st.value, ast.Constant) and st.value.value is mark_val and isinstance(st.targets[0], ast.Name) and (flag_name is None or st.targets[0].id == flag_name)]
     prim_var = None
     for st in prim_false:
         prim_var = norm(st.targets[0])
@@ -278,7 +316,7 @@ def r19_1_parser(ctx):
         ctx.violated("R19.1", pf.where(loop), "the parser never marks a record as not primary", key_of(pf, "no-primary-false"))
         return
     init = [st for st in pf.node.body if isinstance(st, ast.Assign) and norm(st.targets[0]) == prim_var]
-    ctx.check(len(init) == 1 and const_value(init[0].value) is True, "R19.1", pf.where(), "records are primary unless a tp:A tag says otherwise (flag initialised True once per record)", key_of(pf, "primary-init"))
+    ctx.check(len(init) == 1 and const_value(init[0].value) is (not mark_val), "R19.1", pf.where(), "records are primary unless a tp:A tag says otherwise (flag initialised True once per record)", key_of(pf, "primary-init"))
     others = [st for st in walk_stmts(loop.body) if isinstance(st, ast.Assign) and norm(st.targets[0]) == prim_var and st not in prim_false]
     ctx.check(not others, "R19.1", pf.where(loop), "the primary flag is never set back to True by a later field", key_of(pf, "primary-reset"))
     paths = enum_paths(loop.body, rule="R19.1", where=pf.where(loop))
@@ -423,6 +461,27 @@ def r19_1_stat(ctx, m):
             try:
                 v = ev.truth(test)
             except ordtab.Unsupported as e:
+                # the filter reads the mapping quality through a helper that replaces some values by a constant (255 "missing" -> 0):
+                # records with that value change sides of the filter
+                for nm_ in {x_.id for x_ in ast.walk(test) if isinstance(x_, ast.Name)}:
+                    for a_ in walk_own(f.node):
+                        if isinstance(a_, ast.Assign) and len(a_.targets) == 1 and norm(a_.targets[0]) == nm_ and isinstance(a_.value, ast.Call):
+                            h_ = ctx.repo.resolve_call(f, a_.value)
+                            if h_ is not None:
+                                rets_ = [r_.value for r_ in walk_own(h_.node) if isinstance(r_, ast.Return) and r_.value is not None]
+                                if any(isinstance(r_, ast.Constant) and isinstance(r_.value, (int, float)) for r_ in rets_) and any(isinstance(r_, ast.Attribute) and r_.attr == "mapping_quality" for r_ in rets_):
+                                    cst_ = next(r_.value for r_ in rets_ if isinstance(r_, ast.Constant))
+                                    ctx.violated("R19.1", f.where(m.sec_if), f"the secondary filter tests `{nm_}`, which `{h_.qualname}` sets to {cst_!r} for some mapping qualities instead of the record's own value: primary records with such a mapping quality (255 = not available) are counted as secondary and drop out of reads, aligned bases and the per-read maxima", key_of(f, f"mapq-edited-before-filter:{h_.qualname}"))
+                                    return
+                from .c09 import guards_of as _gof19
+
+                for nm_ in {x_.id for x_ in ast.walk(test) if isinstance(x_, ast.Name)}:
+                    defs_ = [a_ for a_ in walk_own(f.node) if isinstance(a_, ast.Assign) and len(a_.targets) == 1 and norm(a_.targets[0]) == nm_]
+                    consts_ = [a_ for a_ in defs_ if isinstance(a_.value, ast.Constant) and isinstance(a_.value.value, (int, float)) and not isinstance(a_.value.value, bool) and any("mapping_quality" in norm(t_) for t_, _p in _gof19(f.node, a_))]
+                    if consts_ and any(isinstance(a_.value, ast.Attribute) and a_.value.attr == "mapping_quality" for a_ in defs_):
+                        g_ = [norm(t_) for t_, _p in _gof19(f.node, consts_[0]) if "mapping_quality" in norm(t_)][0]
+                        ctx.violated("R19.1", f.where(m.sec_if), f"the secondary filter tests `{nm_}`, which is set to {consts_[0].value.value!r} when `{g_[:50]}` instead of the record's own mapping quality: primary records with such a mapping quality (255 = not available) are counted as secondary and drop out of reads, aligned bases and the per-read maxima", key_of(f, f"mapq-edited-before-filter:{nm_}"))
+                        return
                 raise AnalysisError("R19.1", f.where(m.sec_if), f"secondary test outside the fragment: {e}")
             mq = env["mapq"]
             if mq < 0:
